@@ -412,12 +412,10 @@ func (ls *LState) ToStringMeta(lv LValue) LValue {
 
 // Set a module loader to the package.preload table.
 func (ls *LState) PreloadModule(name string, loader LGFunction) {
-	// the package table is taken from _LOADED, not from the global variable "package"
+	// the package table is taken from the registry, not from the global variable "package"
 	var preload LValue = LNil
-	if loaded, ok := ls.GetField(ls.Get(RegistryIndex), "_LOADED").(*LTable); ok {
-		if pkg, ok := ls.GetField(loaded, LoadLibName).(*LTable); ok {
-			preload = ls.GetField(pkg, "preload")
-		}
+	if pkg := loPackageTable(ls); pkg != nil {
+		preload = ls.GetField(pkg, "preload")
 	}
 	if _, ok := preload.(*LTable); !ok {
 		ls.RaiseError("package.preload must be a table")
